@@ -410,7 +410,7 @@ pub fn run(rep: &mut Report, tier: &str, seed: u64, shard: (u32, u32), replay: O
         let p = Params { domain: 0, sdo: 0, p2p: true, seed: seed ^ 3, ops: 2000, wrap: false };
         run_case(rep, &p);
     }
-    let n: u64 = if tier == "thorough" { 3000 } else { 150 };
+    let n: u64 = if tier == "thorough" { 3000 } else { 400 };
     let budget = Budget::new(n, if tier == "thorough" { 600.0 } else { 20.0 });
     let mut i = 0;
     while budget.left(i) && budget.time_left() {
